@@ -71,7 +71,11 @@ func (f *feasSolver) declare(w *World, text string) {
 	}
 	for f.nfuns < len(w.funOrder) {
 		n := w.funOrder[f.nfuns]
-		f.send(fmt.Sprintf("(declare-fun %s %s)\n", n, w.funs[n]))
+		if _, ok := w.defFuns[n]; ok {
+			f.send(fmt.Sprintf("(define-fun %s %s)\n", n, w.funs[n]))
+		} else {
+			f.send(fmt.Sprintf("(declare-fun %s %s)\n", n, w.funs[n]))
+		}
 		f.nfuns++
 	}
 	used := map[string]bool{}
